@@ -25,8 +25,8 @@ ALPHABET = "ab01"
 
 
 def bounds(tier):
-    return dict(calls=4 if tier == "quick" else 5, name_len=3, alphabet=ALPHABET,
-                while_unroll=6 if tier == "quick" else 7)
+    return dict(calls=4 if tier == "quick" else 6, name_len=3, alphabet=ALPHABET,
+                while_unroll=6 if tier == "quick" else 8)
 
 
 def execute(it, kinds, names):
